@@ -37,6 +37,10 @@ DECIDED = [
     "C14.2h the compare that guards each copy covers the complete files (KNOWN FINDING F10: only the first MiB is hashed)",
     "C14.2f the compare that guards each copy hashes both files when asked (no cached or metadata-only comparison)",
     "C14.2w the copy is the only file mutation of a plain transfer; C14.5c the lock file is opened once; C14.5e every path to the locked yield holds the lock (path typestate)",
+    'C14.4k a link upload skips a cache link that already points to its pool file (compare first, like every other flavour)',
+    'C14.4d a cache link is removed before a copy-mode download writes the cache path',
+    'C14.8m the remote comparison answers for a missing remote file without hashing it',
+    "C14.8d the 'already available' skip of a download is not reachable with the pool file missing",
 ]
 NOT_DECIDED = ["byte identity of shutil.copy", "POSIX lock semantics across processes and crashes", "remote pools (no remote lock support in the code)"]
 ASSUMPTIONS = ["fcntl.lockf gives mutual exclusion between processes on the same lock file and is dropped when the descriptor is closed"]
